@@ -184,7 +184,12 @@ class Contract:
     def __init__(self, id, target, props, inputs, call=None, requires=(), ensures=None, ensures_raise=None,
                  ensures_all=None, callees=None, loops=None, canary=None, assume=(), receiver=None,
                  covers=None, note='', kwargs=None, as_property=False, bounded=None, l0=(), native_gens=None, searchable=True,
-                 clause_props=None, signatures=None, native_setup=None, crash_invariant=None, fs_faults=False):
+                 clause_props=None, signatures=None, native_setup=None, crash_invariant=None, fs_faults=False,
+                 closure_vars=None, star=None, starstar=None, native_target=None):
+        self.closure_vars = closure_vars or {}   # {free variable of a nested target function: input name}
+        self.star = star                        # input name passed as *args (a symbolic sequence)
+        self.starstar = starstar                # input name passed as **kwargs (a symbolic mapping)
+        self.native_target = native_target      # callable(values) -> the real callable for replays of nested targets
         self.uses_fs = crash_invariant is not None
         self.crash_invariant = crash_invariant or {}   # {clause name: function(inputs..., fs, fs0)} asserted after EVERY ghost-FS event
         self.fs_faults = fs_faults
